@@ -284,7 +284,9 @@ def generate(run_seed, fault_config="all", jit=False, budget=4.0, max_pto=2, all
         # more than 256 points in one observable, at leading order on a three-node grid
         th["PTO"] = 0
         th.pop("PTODIS", None)
-        th["TMC"] = 0
+        # with target-mass corrections every point adds its own shifted kinematics to whatever is memoised
+        # per runner: more than 256 distinct keys (adversarial seeded change c14-adversarial-tmc-kernel-store)
+        th["TMC"] = cards.wchoice(cfg, [(0, 4), (1, 3), (3, 2), (2, 1)])
         if th["FNS"] not in ("ZM-VFNS", "FFNS"):
             th["FNS"] = "ZM-VFNS"
         ob["interpolation_xgrid"] = list(cards.HUGE_GRID)
@@ -292,7 +294,12 @@ def generate(run_seed, fault_config="all", jit=False, budget=4.0, max_pto=2, all
         ob["interpolation_polynomial_degree"] = 1
         hname = cfg.choice(["F2_light", "F2_total", "FL_light", "F3_total", "F2", "XSHERANC" if ob["prDIS"] != "CC" else "XSHERACC"])
         base = [[hname, cards.huge_points(cfg, cfg.randint(257, 330), cards.is_xs(hname))]]
-        if cfg.random() < 0.5:
+        if cfg.random() < 0.6 and not cards.is_xs(hname):
+            # a second observable on the SAME kinematics (F2 and FL of one data set)
+            twin = {"F2": "FL", "FL": "F2", "F3": "F2"}[hname.split("_")[0]]
+            tname = twin + ("_" + hname.split("_")[1] if "_" in hname else "")
+            base.append([tname, copy.deepcopy(base[0][1])])
+        elif cfg.random() < 0.5:
             base.append(["FL_total", cards.huge_points(cfg, 3)])
     settings = {"S0": {"theory": th, "obs": ob}}
     runners = {"R0": ("S0", base)}
